@@ -14,6 +14,7 @@ BOUNDS = {
     "quick": "factor kinds (rank-one, linear, constant) vs ConjugateFactor under multiply/hadamard (update_full on/off, covariance cached or not), evaluate, slice, product, expected log-factor; diagonal measure/density vs full; diagonal / identity / identity-diagonal / NN-control conditionals vs ConditionalGaussianPDF for cond(x), set_y, the three transformations, entropies and expected log-conditionals; D=2, R<=2, (Dx,Dy) in {(1,1),(2,1),(1,2)}, identity classes D<=2 with R>1 on either side",
     "thorough": "adds D=3, R=3 and (2,2) semi-symbolic",
 }
+ASSUMPTIONS = ["purely relational: both sides are traces of the real code (specialised class vs the general class built from the same parameters); no independent oracle is involved"]
 
 
 def _objfields(o, names=("Lambda", "nu", "ln_beta", "Sigma", "ln_det_Sigma", "ln_det_Lambda", "mu", "lnZ", "M", "b")):
